@@ -21,6 +21,8 @@ CLAIMED['C12'] = ("Bounded symbolic model checking of the API permission gate (a
          "Trusted: go/ssa, symgo, z3; http.Header/Cookie/BasicAuth/rng/log stubs. mainHandler.handle (gorilla/mux, Origin/CORS), key-config parsing and server liveness are outside the claim.")
 CLAIMED['C19'] = ("Bounded symbolic model checking of updater version selection, blacklisting and purge: every combination of per-version flags and registry flags is symbolic, version order is chosen by the harness, the oracle is the documented cascade written as fork-free terms; purge obligations are checked on the recorded os.Remove trace (and on real files in the native replay).",
          "Trusted: go/ssa, symgo, z3; semver parsing stub for numeric versions, os stubs. Real semver ordering, file-name round trip and downloads are outside the claim.")
+CLAIMED['C11'] = ("Bounded symbolic model checking of the query tokenizer, parser and printer: tokenizer totality on every byte string up to 4/6 bytes with exact UTF-8 semantics, token preservation for every value/key up to 3/4 bytes, print->parse->print plus equal matching on a symbolic accessor for single conditions and nested groups, acceptance of documented queries and parser totality over bounded token sequences.",
+         "Trusted: go/ssa, symgo, z3; hand model of the single regexp use; Sprintf model. Float/regex operand semantics and longer strings are outside the claim. One known finding (reserved-word keys).")
 NA = {}
 def check(pid):
     text, note = CLAIMED[pid]
